@@ -103,6 +103,46 @@ def random_jobs(n=100, seed=1, opts=0, ppm=0, dirs=None, fonts=None):
 
 
 
+def cmap_jobs(n=30, seed=1, opts=0, ppm=0, dirs=(0, 1), fonts=None):
+    """Pseudo-random strings over the characters each shipped font itself maps (its cmap), for every font in
+    tests/fonts with a Silf table - including the small test fonts no corpus text belongs to - in the given directions
+    (also the direction opposite to the font's own)."""
+    import random, glob
+    from fontgen import sfnt
+    rng = random.Random(seed * 104729 + 7)
+    out = []
+    for path in sorted(glob.glob(os.path.join(F, "*.ttf"))):
+        name = os.path.basename(path)
+        if fonts and name not in fonts:
+            continue
+        try:
+            S = sfnt.Sfnt(path)
+            if "Silf" not in S.order or "cmap" not in S.order:
+                continue
+            cm = sfnt.read_cmap(S.table("cmap"))
+        except Exception:
+            continue
+        chars = []
+        for pc in cm["ref"]:
+            for c in range(pc["lo"], min(pc["hi"], pc["lo"] + 400) + 1):
+                g = pc["gids"][c - pc["lo"]] if pc["kind"] == "list" else (pc["base"] + c - pc["lo"]) & 0xFFFF
+                if g and c not in (0xFFFF,) and not 0xD800 <= c <= 0xDFFF:
+                    chars.append(c)
+        if not chars:
+            continue
+        if len(chars) > 300:
+            chars = sorted(rng.sample(chars, 300))
+        for k in range(n):
+            ln = rng.choice([1, 2, 3, 4, 4, 5, 6, 9])
+            cps = [0x20 if rng.random() < 0.12 else rng.choice(chars) for _ in range(ln)]
+            if rng.random() < 0.4:            # the same character repeated: runs that let every pass be skipped, or a rule repeat
+                j = rng.randrange(len(cps))
+                cps[j:j] = [cps[j]] * rng.choice([1, 2])
+            for d in dirs:
+                out.append({"font": path, "cps": cps, "dir": d, "opts": opts, "ppm": ppm, "id": "cmap:%s:%d:d%d" % (name, k, d)})
+    return out
+
+
 def manytables_jobs(tmp, opts=0, counts=(39, 40, 41, 64)):
     """Padauk with additional (ignored) tables so that the sfnt directory has exactly `count` entries: file faces look
     tables up in that directory, callback faces do not."""
